@@ -2,7 +2,7 @@
 //
 // Two scenarios, each an explicit-state BFS over the real handlers on forked
 // application state (one world per worker process; the first workers explore
-// scenario A, the last two scenario B):
+// scenario A, the last three scenario B, one stake vector each):
 //
 //	A "evidence": batch life-cycle of C01 (Send, EndBlk50, EstimateQuorum,
 //	  Confirm(v), EndBlkLate, ExecutedQuorum) plus MsgSubmitBadSignatureEvidence
@@ -11,8 +11,9 @@
 //	  never-published checkpoints signed with the validators' real eth keys.
 //	B "prune": one turnstone message in the consensus queue (job execution),
 //	  gas-estimate election, error / public-access data, evidence by every
-//	  subset of six validators whose stakes make the fractions <10 %, 10 %, 1/3,
-//	  2/3-1 share exact, then the consensus end-blocker at a height = 0 mod 50
+//	  subset of the validators, for three stake vectors (fractions <10 %, 10 %,
+//	  1/3, 2/3-1 share exact; totals not divisible by 10 with a subset inside
+//	  [floor(T/10), T/10)), then the consensus end-blocker at a height = 0 mod 50
 //	  with the message older than 300 blocks.
 package main
 
@@ -45,9 +46,30 @@ import (
 const (
 	ref   = "eth-main"
 	erc20 = "0x1111111111111111111111111111111111111111"
-	// worker processes given to scenario B (the rest explore scenario A)
-	nShardsB = 2
 )
+
+// Scenario B is explored once per stake vector, each in its own worker process
+// (one world per process); the remaining workers explore scenario A.
+//
+//	prune          total 30 000 000: v0 = 6.67 % (<10 %), v1 = 10 % exactly,
+//	               v0+v1+v2 = 1/3 exactly, v0..v4 = 2/3 of the total minus one
+//	               share, v5 alone = 1/3 plus one share.
+//	prune-T30000009 total not divisible by 10: v0 = 3 000 000 lies in
+//	               [floor(T/10), T/10) (9.99999 %, fewer than 10 %), v1 =
+//	               3 000 001 lies just above T/10.
+//	prune-T19000001 four validators, smallest stakes a bonded validator can
+//	               have (a genesis validator below the power reduction of 10^6
+//	               is not bonded, so totals like 19 shares cannot exist):
+//	               v0 = 1 900 000 = floor(T/10) lies in [floor(T/10), T/10),
+//	               v1 = 2 000 001 is above 10 %.
+var stakeVectors = []struct {
+	name   string
+	stakes []int64
+}{
+	{"prune", []int64{2_000_000, 3_000_000, 5_000_000, 5_000_000, 4_999_999, 10_000_001}},
+	{"prune-T30000009", []int64{3_000_000, 3_000_001, 5_000_000, 5_000_000, 4_000_000, 10_000_008}},
+	{"prune-T19000001", []int64{1_900_000, 2_000_001, 3_000_000, 12_100_000}},
+}
 
 func must(err error) {
 	if err != nil {
@@ -58,12 +80,12 @@ func must(err error) {
 func main() {
 	replay := flag.String("replay", "", "replay file")
 	flag.Parse()
-	n := 8
-	if report.Tier() == "thorough" {
-		n = report.Workers()
-		if n < 4 {
-			n = 4
-		}
+	n := report.Workers()
+	if report.Tier() != "thorough" && n > 8 {
+		n = 8
+	}
+	if n < len(stakeVectors)+1 {
+		n = len(stakeVectors) + 1
 	}
 	if *replay != "" {
 		n = 1
@@ -82,13 +104,15 @@ func run(r *report.Run, shard, nshards int, replayFile string) {
 		"scenario B prunes with the consensus module's own EndBlock (estimates, attestation, PruneOldMessages(300) at h%50==0) and not the whole module manager, so keep-alive jailing of x/valset (C12) cannot be confused with prune-time jailing; the blocks between hand-in of evidence and the prune height are empty",
 		"'fewer than 10% attested' is read as 10*shares(evidence suppliers in the snapshot) < total snapshot shares; at exactly 10% the property does not constrain jailing of non-suppliers",
 		"shares of suppliers are taken from the genesis stakes and cross-checked against the current snapshot",
-		"scenario B hands evidence in in ascending validator order, each validator once with proof A or (v2, v5; thorough: all) the dissenting proof B: the prune-time code reads the evidence as a set (address look-ups, share sums, grouping by proof hash), so other hand-in orders reach the same decisions",
-		"validators with more than 25% of the bonded power (v5 of scenario B) cannot be jailed by x/valset at all; v0..v4 are jailable",
+		"scenario B hands evidence in in ascending validator order, each validator once with proof A or (v2 and the last validator; thorough: all) the dissenting proof B: the prune-time code reads the evidence as a set (address look-ups, share sums, grouping by proof hash), so other hand-in orders reach the same decisions",
+		"validators with more than 25% of the bonded power (the last validator of each scenario-B stake vector) cannot be jailed by x/valset at all; the others are jailable",
+		"scenario B runs once per stake vector (totals 30 000 000, 30 000 009 and 19 000 001 shares; a snapshot share is a bonded token and a bonded validator needs at least 10^6, so smaller totals are unreachable), one worker process each; the 10% rule is evaluated literally with big integers: nobody may be jailed when 10*votes < total",
 		"the A_*/B_* counters are per-worker sums (operations of the two shared prefix levels are counted once per worker); states/transitions are exact",
 	}
+	nB := len(stakeVectors)
 	scenario := "evidence"
-	if nshards >= 2 && shard >= nshards-nShardsB {
-		scenario = "prune"
+	if nshards > nB && shard >= nshards-nB {
+		scenario = stakeVectors[shard-(nshards-nB)].name
 	}
 	var path []string
 	if replayFile != "" {
@@ -108,16 +132,25 @@ func run(r *report.Run, shard, nshards int, replayFile string) {
 		}
 	}
 	var spec explore.Spec
-	switch scenario {
-	case "prune":
-		spec = specB(r)
-		spec.Shard, spec.NShards = shard-(nshards-nShardsB), nShardsB
-	default:
+	if scenario == "evidence" {
 		spec = specA(r)
-		spec.Shard, spec.NShards = shard, nshards-nShardsB
+		spec.Shard, spec.NShards = shard, nshards-nB
+	} else {
+		found := false
+		for _, sv := range stakeVectors {
+			if sv.name == scenario {
+				spec = specB(r, sv.name, sv.stakes)
+				found = true
+			}
+		}
+		if !found {
+			fmt.Fprintln(os.Stderr, "unknown scenario", scenario)
+			os.Exit(2)
+		}
+		spec.Shard, spec.NShards = 0, 1
 	}
 	spec.ShardDepth = 2
-	if nshards < 2 {
+	if nshards <= nB {
 		spec.Shard, spec.NShards = 0, 1
 	}
 	if replayFile != "" {
@@ -541,14 +574,11 @@ type envB struct {
 	user     *world.Actor
 	bFor     map[int]bool // validators that may also supply the dissenting proof B
 	consensu appmodule.HasEndBlocker
+	stakes   []int64
+	name     string
 }
 
-// stakes: total 30 000 000; v0 = 6.67 % (<10 %), v1 = 10 % exactly,
-// v0+v1+v2 = 1/3 exactly, v0..v4 = 2/3 of the total minus one share,
-// v5 alone = 1/3 plus one share.
-var stakesB = []int64{2_000_000, 3_000_000, 5_000_000, 5_000_000, 4_999_999, 10_000_001}
-
-func specB(r *report.Run) explore.Spec {
+func specB(r *report.Run, name string, stakesB []int64) explore.Spec {
 	w := world.New(world.Config{Stakes: world.StakesOf(stakesB...), Users: []string{"U1"}, Height: 101})
 	ctx := w.Root
 	must(w.StdChain(ctx, ref))
@@ -563,7 +593,7 @@ func specB(r *report.Run) explore.Spec {
 	if !ok {
 		panic("consensus module has no end-blocker")
 	}
-	e := &envB{w: w, r: r, queue: world.TurnstoneQueue(ref), user: u, consensu: mod, bFor: map[int]bool{2: true, 5: true}}
+	e := &envB{w: w, r: r, queue: world.TurnstoneQueue(ref), user: u, consensu: mod, stakes: stakesB, name: name, bFor: map[int]bool{2: true, len(stakesB) - 1: true}}
 	if r.Thorough() {
 		for i := range w.Vals {
 			e.bFor[i] = true
@@ -586,7 +616,7 @@ func specB(r *report.Run) explore.Spec {
 		}
 	}
 	return explore.Spec{
-		Name: "prune", Init: []*explore.Node{{Ctx: ctx, Ghost: &ghostB{Supplied: make([]string, len(w.Vals))}}}, Ops: e.ops,
+		Name: name, Init: []*explore.Node{{Ctx: ctx, Ghost: &ghostB{Supplied: make([]string, len(w.Vals))}}}, Ops: e.ops,
 		Hash: func(n *explore.Node) string {
 			return n.Ghost.Key() + "|" + w.StoreDigest(n.Ctx, ctypes.StoreKey) + "|" + flagString(jailed(w, n.Ctx))
 		},
@@ -743,12 +773,12 @@ func (e *envB) ops(n *explore.Node) []explore.Op {
 		votes, total := new(big.Int), new(big.Int)
 		var sup []string
 		for i, v := range w.Vals {
-			total.Add(total, big.NewInt(stakesB[i]))
+			total.Add(total, big.NewInt(e.stakes[i]))
 			if (g.Supplied[i] != "") != rec[v.ValAddr.String()] {
 				return explore.Failf("harness-suppliers", "ghost and queue disagree about v%d's evidence", i)
 			}
 			if g.Supplied[i] != "" {
-				votes.Add(votes, big.NewInt(stakesB[i]))
+				votes.Add(votes, big.NewInt(e.stakes[i]))
 				sup = append(sup, fmt.Sprintf("v%d:%s", i, g.Supplied[i]))
 			}
 		}
@@ -783,13 +813,17 @@ func (e *envB) ops(n *explore.Node) []explore.Op {
 			frac = "2/3-minus-1-share"
 		case !below:
 			frac = "between"
+		case votes.Cmp(new(big.Int).Quo(total, big.NewInt(10))) >= 0:
+			// floor(T/10) <= votes < T/10: fewer than 10 %, but not by truncating division
+			frac = "below-10pct-at-floor"
 		}
 		counters["B_prunes"]++
 		counters["B_prune_"+frac]++
+		counters["B_prunes_"+e.name]++
 		if len(newly) > 0 {
 			counters["B_prunes_that_jailed"]++
 		}
-		cases[fmt.Sprintf("B|data=%s|est=%v|suppliers=%v|votes=%s|%s|gone=%v|jailed=%v", g.Data, g.Estimated, sup, votes, frac, gone, newly)] = struct{}{}
+		cases[fmt.Sprintf("B|"+e.name+"|data=%s|est=%v|suppliers=%v|votes=%s|%s|gone=%v|jailed=%v", g.Data, g.Estimated, sup, votes, frac, gone, newly)] = struct{}{}
 		for i := range before {
 			if !before[i] && after[i] && g.Supplied[i] != "" {
 				return explore.Failf("B-supplier-jailed", "prune of message %d (data=%q, estimate elected=%v, evidence by %v = %s of %s shares) jailed v%d, which supplied evidence", g.MsgID, g.Data, g.Estimated, sup, votes, total, i)
